@@ -203,6 +203,10 @@ func main() {
 		fmt.Fprintln(os.Stderr, "usage: check <property-id> [quick|thorough] | check replay <file>")
 		os.Exit(2)
 	}
+	if os.Args[1] == "selftest" {
+		selftest(os.Args[2:])
+		return
+	}
 	if os.Args[1] == "replay" {
 		if len(os.Args) < 3 {
 			infra("usage: check replay <file>")
@@ -563,4 +567,63 @@ func tailStr(s string, n int) string {
 		return s[len(s)-n:]
 	}
 	return s
+}
+
+// selftest: checks of the machinery itself.
+//
+//	passthrough  the repository's own tests must pass against the instrumented copy (runtime in passthrough mode)
+//	determinism  every scenario: the same seeds give the same event hashes across processes and GOMAXPROCS 1/4/16
+func selftest(args []string) {
+	what := "all"
+	if len(args) > 0 {
+		what = args[0]
+	}
+	worker := prepare(false)
+	ok := true
+	if what == "all" || what == "passthrough" {
+		out, err := runCmd(filepath.Join(scratch, "lib"), goEnv(), "go", "test", "-count=1", "-vet=off", "./...")
+		npass := strings.Count(out, "\nok ") + strings.Count(out, "ok  \t")
+		if err != nil {
+			fmt.Println("SELFTEST passthrough: FAILED\n" + tailStr(out, 4000))
+			ok = false
+		} else {
+			fmt.Printf("SELFTEST passthrough: the repository's tests pass against the instrumented copy (%d packages ok)\n", npass)
+		}
+	}
+	if what == "all" || what == "determinism" {
+		out, err := runCmd(scratch, os.Environ(), worker, "-list")
+		if err != nil {
+			infra("%v", err)
+		}
+		nseeds := "40"
+		for _, sc := range strings.Fields(out) {
+			var ref string
+			bad := false
+			nruns := 0
+			for _, procs := range []string{"1", "4", "16", "1", "4", "16"} {
+				cmd := exec.Command(worker, "-scenario", sc, "-seed0", "4242", "-count", nseeds, "-dumphashes", "-out", filepath.Join(scratch, "det.json"), "-stop-after", "1000000")
+				cmd.Env = append(os.Environ(), "GOMAXPROCS="+procs)
+				o, err := cmd.Output()
+				if err != nil {
+					infra("determinism self-test: worker failed: %v", err)
+				}
+				nruns++
+				if ref == "" {
+					ref = string(o)
+				} else if string(o) != ref {
+					bad = true
+				}
+			}
+			if bad {
+				fmt.Printf("SELFTEST determinism: scenario %s DIVERGED across processes/GOMAXPROCS\n", sc)
+				ok = false
+			} else {
+				fmt.Printf("SELFTEST determinism: scenario %s: %s seeds x %d processes (GOMAXPROCS 1,4,16 twice) identical event hashes\n", sc, nseeds, nruns)
+			}
+		}
+	}
+	cleanup()
+	if !ok {
+		os.Exit(2)
+	}
 }
